@@ -518,7 +518,17 @@ def _h_now(exe, st):
     return now
 
 
-STATE_HELPERS = {'raw64': _h_raw64, 'rawmem': _h_rawmem, 'raw8': _h_raw8, 'now': _h_now}
+def _h_sin(exe, st):
+    from .libc import _sincos
+    return lambda x: _sincos(exe, st, x)[0]
+
+
+def _h_cos(exe, st):
+    from .libc import _sincos
+    return lambda x: _sincos(exe, st, x)[1]
+
+
+STATE_HELPERS = {'sin_of': _h_sin, 'cos_of': _h_cos, 'raw64': _h_raw64, 'rawmem': _h_rawmem, 'raw8': _h_raw8, 'now': _h_now}
 
 
 def fn_resolver(exe, fn_name):
